@@ -138,7 +138,7 @@ def units():
     return _UNITS
 
 
-def krylov_min_residual(A, b, x0, m):
+def krylov_min_residual(A, b, x0, m, with_rho=False):
     """min over x in x0 + K_m(A, r0) (right quaternion span) of ||b - A x||_F.
 
     K_m is the right H-module spanned by r0, A r0, ..., A^{m-1} r0; in real
@@ -148,7 +148,8 @@ def krylov_min_residual(A, b, x0, m):
     r0 = b - mm(A, x0)
     nr = fro(r0)
     if nr == 0.0:
-        return 0.0
+        return (0.0, 1.0) if with_rho else 0.0
+    rho_min = 1.0
     # Harness-side quaternion Arnoldi in real coordinates.  The real span of
     # {w u : u in 1,i,j,k} is a right H-module, so its orthogonal projector commutes
     # with right multiplication and the remainder of (A w) u is (remainder of A w) u:
@@ -170,6 +171,8 @@ def krylov_min_residual(A, b, x0, m):
         for _rep in range(2):
             v = v - Qm @ (Qm.T @ v)
         nv = np.linalg.norm(v)
+        if _ < m - 1:
+            rho_min = min(rho_min, (nv / nv0) if nv0 > 0 else 0.0)
         if nv0 == 0.0 or nv <= 1e-8 * nv0:
             break
         w = from_comps((v / nv).reshape(N, 1, 4))
@@ -180,8 +183,9 @@ def krylov_min_residual(A, b, x0, m):
             cols.append(real_cols(Awj * u))
     M = np.array(cols).T
     rhs = real_cols(r0)
-    y, *_ = np.linalg.lstsq(M, rhs, rcond=None)
-    return float(np.linalg.norm(M @ y - rhs))
+    y, *_rest = np.linalg.lstsq(M, rhs, rcond=None)
+    opt = float(np.linalg.norm(M @ y - rhs))
+    return (opt, float(rho_min)) if with_rho else opt
 
 
 def self_test():
